@@ -248,6 +248,15 @@ def _summary(case):
     ns, trees, ws, L, r, split_sets = _setup(case)
     st = dict(case.get("settings") or {})
     ages = bool(st.pop("ages", False))
+    pooled_with = None
+    if case["route"] == "TreeArray+pooled":
+        # the collection under test holds the first half of the trees and has been an OPERAND of a merge with the second half
+        # (`a + b`): its own summaries are still those of its own trees
+        h = max(1, len(trees) // 2)
+        if not sum((1 if w is None else w) for w in ws[:h]):
+            return []   # total weight of the first half is zero: its fractions are undefined (left out, see docstring)
+        pooled_with = trees[h:]
+        trees, ws, split_sets = trees[:h], ws[:h], split_sets[:h]
     exp = Q.expected_frequencies(split_sets, ws, True)
     # per-split value collections, from the raw pointers, before the library touches the trees
     lens, ags = {}, {}
@@ -285,6 +294,13 @@ def _summary(case):
                 src.count_splits_on_tree(t)
     elif route == "TreeArray":
         src = tl.as_tree_array(ignore_node_ages=not ages)
+    elif route == "TreeArray+pooled":
+        src = tl.as_tree_array(ignore_node_ages=not ages)
+        other = _tl(ns, pooled_with).as_tree_array(ignore_node_ages=not ages)
+        pooled = src + other
+        for t in pooled_with[:1]:
+            pooled.add_tree(t)
+        route = "TreeArray"
     else:
         src = tl.split_distribution(ignore_node_ages=not ages)
     tgt = case["target"]
@@ -566,10 +582,10 @@ def eval_length_sample(sample):
     sets = list(SETTINGS) + (list(AGE_SETTINGS) if sample.get("ultrametric") else [])
     targets = list(sample["targets"])
     for j, st in enumerate(sets):
-        for route in ("TreeArray", "SplitDistribution", "TreeArray+incremental", "SplitDistribution+incremental"):
+        for route in ("TreeArray", "SplitDistribution", "TreeArray+incremental", "SplitDistribution+incremental", "TreeArray+pooled"):
             if st.get("ages") and sample["rooted"] is not True:
                 continue
-            if route.endswith("+incremental") and len(sample["trees"]) < 2:
+            if (route.endswith("+incremental") or route.endswith("+pooled")) and len(sample["trees"]) < 2:
                 continue
             c = _base(sample)
             c.update(what="summary", route=route, settings=st, target="consensus", th=[0.5, GTH, 0.25][(i + j) % 3])
